@@ -53,11 +53,11 @@ reg("C15", "model_checking",
 
 reg("C05", "model_checking",
     "explicit-state search (level-synchronous BFS on canonical states) of the real AshProtocol transmit path under every per-attempt peer reaction, virtual time",
-    "Every reachable state of {queued sends x per-attempt peer reaction from a 16-item menu (covering ACK / DATA, stale and non-covering ACKs (ackNum f, f-1, f+4), NAK, silence, ERROR 0x51/0x80, RSTACK, "
-    "reaction coinciding with the ACK timeout in one loop iteration, NAK+ERROR in one read, 0.3 s late reactions) x failure -> silent link -> RSTACK recovery -> further send, a send submitted during a send after a mid-send RSTACK}, "
+    "Every reachable state of {queued sends x per-attempt peer reaction from an 18-item menu (covering ACK / DATA, stale and non-covering ACKs (ackNum f, f-1, f+4), NAK, silence, ERROR 0x51/0x80, RSTACK, "
+    "reaction coinciding with the ACK timeout in one loop iteration, NAK+ERROR in one read, reactions 0.3 s late and 10 ms ahead of the ACK timeout) x failure -> silent link -> RSTACK recovery -> further send, a send submitted during a send after a mid-send RSTACK}, "
     "closed for each listed configuration incl. warm-ups that wrap the frame number and drive the adaptive timeout to its floor; the timestamped wire trace is judged incrementally "
     "(budget, same frmNum/payload, reTx flag, repeat timing in [0.4, 3.2] s or at once on NAK, single failure report, silence until RSTACK, consecutive numbering, one outstanding frame).",
-    "Rare reactions draw on per-run budgets (stated in the evidence); oracle timing constants are the UG101 values hard-coded in the check; model = implementation on a hand-stepped asyncio loop.",
+    "Rare reactions draw on per-run budgets (stated in the evidence); the 0.4 s / 3.2 s bounds are the UG101 values hard-coded in the check, the attempt budget is read from bellows.ash.ACK_TIMEOUTS; model = implementation on a hand-stepped asyncio loop.",
     "DESIGN.md section 3 C05")
 
 reg("C11", "fault_enumeration",
@@ -131,10 +131,10 @@ reg("C13", "exploration",
 reg("C12", "model_checking",
     "deviation-bounded stateless search over the real ControllerApplication.send_packet with a frame-level NCP simulator, virtual clock",
     "Two (thorough: three) concurrent packets from {plain / source-routed / extended-timeout / IEEE-addressed known+unknown unicast, multicast, broadcast} per version (4, 8, 9, 14; thorough 4..14); "
-    "every execution with <= 2 (3) deviations: each busy and refusal enqueue status, failed / foreign-tag / foreign-destination / duplicate / unsolicited / early confirmation, silence to 120 s, "
-    "address-lookup miss, cancellation. Reference outcome per packet (normal return iff accepted and own confirmation success; DeliveryError on refusal, third busy answer + 1.5 s, failed "
-    "confirmation; TimeoutError at +120 s), empty pending table at the end, retry spacing, and set-up/send blocks judged on the NCP's request log.",
-    "Timeouts and retry delays hard-coded in the oracle; stateless search ('states' = visited world states, no merging); zigpy.util.Requests back-filled.",
+    "every execution with <= 2 (3) deviations: each busy and refusal enqueue status, failed / foreign-tag (also a 16-bit tag sharing the low byte on v14) / foreign-destination / duplicate / unsolicited / early confirmation, silence to the confirmation timeout, "
+    "address-lookup miss, cancellation. Reference outcome per packet (normal return iff accepted and own confirmation success; DeliveryError on refusal, after the last busy answer (at once or after one more delay), failed "
+    "confirmation; TimeoutError at the confirmation timeout), empty pending table at the end, retry spacing, and set-up/send blocks judged on the NCP's request log.",
+    "Send requests are decoded and confirmations built from the UG100 wire layouts (struct), not through bellows' schemas; confirmation timeout and retry delays are read from bellows as tunables; stateless search ('states' = visited world states, no merging); zigpy.util.Requests back-filled.",
     "DESIGN.md section 3 C12")
 
 reg("C01", "model_checking",
@@ -157,11 +157,11 @@ reg("C09", "fault_enumeration",
 
 reg("C10", "fault_enumeration",
     "crash-point enumeration: one failure of each kind injected before/after every step of each workload's fault-free trace on the full real stack, also coinciding with the earliest host timer",
-    "After a real bring-up with an application callback registered: workloads {idle, one command in flight, one in flight + one queued, reset in progress, reset against a mute NCP} + keep-alive, "
+    "After a real bring-up with an application callback registered: workloads {idle, one command in flight, one in flight + one queued, reset in progress, reset against a mute NCP} + keep-alive, and the same after an earlier ERROR frame that went unreported because the callback was registered late, "
     "serial and socket paths, v4/v8/v14 (thorough 8 versions); failure kinds ERROR(0x51, 0x80), unsolicited RSTACK(0x00, 0x02, 0x06), silent NCP, port error, EOF, deliberate close, each alone and "
     "in the same loop iteration as the earliest pending timer. Judged: controller-reset request reaches the application (with the reason, at once; for a silent NCP within keep-alive + command + "
-    "link budget; a reset in progress reports through its own exception), EZSP stopped, a new command raises EzspError and writes nothing, in-progress calls end within 10 s + 16 s, close produces no request.",
-    "Timeouts hard-coded in the oracle; NCP = reference ASH endpoint + EZSP simulator; use_thread=False, one hand-stepped loop, only _run_once-feasible orders.",
+    "link budget; a reset in progress reports through its own exception), EZSP stopped, a new command raises EzspError and writes nothing, in-progress calls end within command timeout + attempts x 3.2 s, close produces no request.",
+    "Command timeout and attempt count read from bellows as tunables; NCP = reference ASH endpoint + EZSP simulator; use_thread=False, one hand-stepped loop, only _run_once-feasible orders.",
     "DESIGN.md section 3 C10")
 
 reg("C20", "model_checking",
@@ -176,7 +176,7 @@ reg("C20", "model_checking",
 reg("C14", "exploration",
     "bounded exhaustive enumeration of network-settings families x version x NCP capability x prior NCP state through the real write/read paths against a stateful reference NCP",
     "Versions 4..14 x {rewritable EUI64 token, not} x prior state {blank, restored with the same backup, with another backup} x base / one-at-a-time / all pairs over link keys 0-1-3, children "
-    "(with/without NWK address), TC address known/unknown, hashed link key present/absent, frame counters incl. 2^32-1, channel, update id, key sequence, PAN ids, node IEEE: the real "
+    "(with/without NWK address), TC address known / unknown (zigpy's singleton and an equal copy), hashed link key present/absent, frame counters incl. 2^32-1, channel, update id, key sequence, PAN ids, node IEEE: the real "
     "write_network_info + load_network_info(load_devices=True) (resets, config writes, version negotiation inside) and field-by-field comparison of the read-back; the initial-security-state frame the "
     "NCP received is checked for keys, hashed flag and trust-centre presence flag / address.",
     "Largest hand-written environment (mc/env/ncp_net.py); its firmware-semantics assumptions are listed in the evidence file. v5+ cases use the well-known TC link key (the only one bellows supports with hashing).",
